@@ -125,6 +125,17 @@ def resolveCell (ls : List Level) (a : String) (acts : List Action) : CellRes :=
         | _ => .panic
       else .orderDependent
 
+/-- the well-formedness `grammar.CFG.Verify` asks for (the property quantifies over valid grammars only) -/
+def validGrammar (g : SGrammar) : Bool :=
+  g.nonterms.contains g.start &&
+  g.nonterms.all (fun n => g.prods.any (fun p => p.head == n)) &&
+  g.prods.all (fun p => g.nonterms.contains p.head &&
+    p.body.all (fun s => match s with
+      | .term t => g.terms.contains t
+      | .nonterm n => g.nonterms.contains n)) &&
+  g.terms.all (fun t => !g.nonterms.contains t && t != endmarker) &&
+  !g.nonterms.contains (g.start ++ "′")
+
 structure BuiltT where
   built : Built
   final : Table          -- after ResolveConflicts
@@ -137,6 +148,14 @@ def runBuild (k : Kind) (g : SGrammar) (ls : List Level) : String × Option Buil
   | .diverge => ("hang", none)
   | .ok b =>
     if !levelsOK ls then ("ok badprec", none)
+    else if ls.isEmpty then
+      -- without levels every order gives the same result: `ResolveConflicts` as modelled, in list order
+      match resolveAll ls (fun _ _ acts => acts) b.table with
+      | .ok (T, .table) => ("ok table " ++ showTable T, some { built := b, final := T, usable := true })
+      | .ok (T, .conflict) => ("ok conflict " ++ showTable T, some { built := b, final := T, usable := true })
+      | .ok (_, .badPrecedences) => ("ok badprec", none)
+      | .panic => ("panic", none)
+      | .diverge => ("hang", none)
     else
       let step := fun (acc : Table × Bool × Bool × Bool) (e : (Int × String) × List Action) =>
         -- acc = (table, conflict?, orderDependent?, panic?)
@@ -208,6 +227,7 @@ def runCase (_hdr : List String) (ops : List String) : List String := Id.run do
     | ["build", k] =>
       match parseKind k with
       | some k =>
+        if !validGrammar st.g then out := out.push "ok invalid-grammar" else
         let (s, b) := runBuild k st.g st.levels
         st := st.set k b
         if s = "panic" || s = "hang" then dead := true
@@ -242,6 +262,9 @@ def runCase (_hdr : List String) (ops : List String) : List String := Id.run do
       let (l, r) := splitBar rest
       match l, r.mapM (parseAction st.g) with
       | [a], some acts =>
+        if acts.length < 2 || acts.eraseDups.length ≠ acts.length then out := out.push "bad-op"
+        else if !levelsOK st.levels then out := out.push "ok error"     -- `ResolveConflicts` stops at `Verify`
+        else
         match resolveConflict st.levels a acts with
         | .ok (some act) => out := out.push ("ok " ++ showAction act)
         | .ok none => out := out.push "ok error"
